@@ -261,3 +261,80 @@ def v4b_window_policy(ctx):
         r.add(f, "hour %s %s ⇒ outside the window ⇒ false" % (op, fld), good_op and fl, where(b, bb), "" if (good_op and fl) else "expected `hour %s %s` returning false" % (want, fld))
     r.add(f, "both window bounds are tested", set(seen) == {"start", "end"}, short_span(b.span), "tested: %s" % seen)
     return r
+
+
+def v7_argument_parsers(ctx):
+    r = RuleResult("V7", "command argument readers (Parser::get_string / get_bytes): 'no more arguments' (Ok(None)) is reported only when the frame iterator is exhausted; a bulk string yields the argument; every other frame kind (null, integer, nested array, …) is an error — a malformed argument can neither end the argument list early nor be skipped; Get/Set insist that nothing follows (finish)", floor=6)
+    from k4 import is_ok_none, is_ok_some
+
+    prog = ctx.prog
+    for fn in ("net::command::Parser::get_string", "net::command::Parser::get_bytes"):
+        b = prog.one(fn)
+        f = fam_name(b)
+        nx = calls_in([b], "std::iter::Iterator::next")
+        if len(nx) != 1:
+            r.unrec(f, "frames.next() ×%d" % len(nx), short_span(b.span), "expected one")
+            continue
+        _, nbb, nt = nx[0]
+        site = (b.path, nbb)
+        none_e, some_dst = set(), None
+        for bb in b.live_blocks():
+            info = b.switch_info(bb)
+            if info and info["kind"] == "variant":
+                o = peel_var(info["on"])
+                if o[0] == "call" and o[3] == site:
+                    for e in b.succ[bb]:
+                        if info["arms"].get(e.dst) == ["None"]:
+                            none_e.add((e.src, e.dst))
+                        elif info["arms"].get(e.dst) == ["Some"]:
+                            some_dst = e.dst
+        stray = [rb for c, d, rb in ret_classes(b, 0, lambda e: e.kind == "unwind" or (e.src, e.dst) in none_e) if is_ok_none(c, ret_origin(b, d))]
+        r.add(f, "Ok(None) only when the iterator is exhausted", bool(none_e) and not stray, where(b, nbb), "" if not stray else "a frame that is present is reported as 'no more arguments': `DEL a $-1 …` would run as `DEL a`")
+        # variant routing of the frame
+        found = False
+        for bb in sorted(b.live_blocks()):
+            info = b.switch_info(bb)
+            if info and info["kind"] == "variant" and "BulkString" in sum(info["arms"].values(), []) and origin_mentions(info["on"], lambda x: x[0] == "call" and x[3] == site):
+                found = True
+                for e in b.succ[bb]:
+                    labs = info["arms"].get(e.dst, [])
+                    if not labs:
+                        continue
+                    rs = [(c, ret_origin(b, d)) for c, d, rb in ret_classes(b, e.dst, lambda x: x.kind == "unwind")]
+                    if labs == ["BulkString"]:
+                        good = bool(rs) and all(is_ok_some(c, o) or c == "err" for c, o in rs) and any(is_ok_some(c, o) for c, o in rs)
+                        r.add(f, "BulkString ⇒ Ok(Some(arg)) (or a conversion error)", good, where(b, bb))
+                    else:
+                        good = bool(rs) and all(c == "err" for c, o in rs)
+                        r.add(f, "%s ⇒ Err" % "/".join(labs), good and "BulkString" not in labs, where(b, bb), "" if good else "a non-bulk argument is accepted or skipped")
+        if not found:
+            r.unrec(f, "match on the frame kind", where(b, nbb), "not found")
+    # Get and Set reject trailing arguments
+    for cmd in ("get::Get", "set::Set"):
+        name = "net::command::<impl std::convert::TryFrom<net::command::Parser> for net::command::%s>::try_from" % cmd
+        cands = [b for b in shipped_bodies(prog) if b.path == name]
+        if len(cands) != 1:
+            r.unrec("net::command::%s" % cmd, "TryFrom<Parser>", "src/net/command.rs", "found %d" % len(cands))
+            continue
+        b = cands[0]
+        fin = calls_in([b], "net::command::Parser::finish")
+        ok_wo = True
+        if fin:
+            _, fbb, ft = fin[0]
+            good_edges = set()
+            for bb in b.live_blocks():
+                info = b.switch_info(bb)
+                if info and info["kind"] == "bool":
+                    o = peel_var(info["on"])
+                    neg = False
+                    if o[0] == "un" and o[1] == "Not":
+                        neg = True
+                        o = peel_var(o[2])
+                    if o[0] == "call" and o[3] == (b.path, fbb):
+                        for e in b.succ[bb]:
+                            if info["arms"].get(e.dst) == [not neg]:
+                                good_edges.add((e.src, e.dst))
+            classes = {c for c, d, rb in ret_classes(b, 0, lambda e: e.kind == "unwind" or (e.src, e.dst) in good_edges)}
+            ok_wo = "ok" not in classes and bool(good_edges)
+        r.add(fam_name(b), "succeeds only if Parser::finish() says nothing follows", bool(fin) and ok_wo, short_span(b.span))
+    return r
